@@ -252,6 +252,17 @@ def modelrun_exe():
     return os.path.join(OCAML_BUILD, "modelrun")
 
 
+def _big_stack():
+    """the extracted model recurses once per list element in places (Coq's map, app ..): megabyte-sized case lines need a deep stack"""
+    import resource
+    try:
+        soft, hard = resource.getrlimit(resource.RLIMIT_STACK)
+        want = hard if hard != resource.RLIM_INFINITY else resource.RLIM_INFINITY
+        resource.setrlimit(resource.RLIMIT_STACK, (want, hard))
+    except (ValueError, OSError):
+        pass
+
+
 def run_lines(exe, lines, shards=NCPU, timeout=3000, env=None):
     """Feed case lines to a line-in/line-out executable, sharded; returns list of output lines."""
     if not lines:
@@ -261,7 +272,8 @@ def run_lines(exe, lines, shards=NCPU, timeout=3000, env=None):
     chunks = [lines[i::shards] for i in range(shards)]
     procs = []
     for ch in chunks:
-        p = subprocess.Popen([exe], stdin=subprocess.PIPE, stdout=subprocess.PIPE, stderr=subprocess.DEVNULL, env=env or ENV)
+        p = subprocess.Popen([exe], stdin=subprocess.PIPE, stdout=subprocess.PIPE, stderr=subprocess.DEVNULL, env=env or ENV,
+                             preexec_fn=_big_stack if os.path.basename(exe).startswith("modelrun") else None)   # never for the implementation: a stack overflow there is a finding
         procs.append(p)
     outs = []
     import threading
